@@ -52,6 +52,9 @@ func (c17) Gen(rng *sim.Rand, tier string) *Case {
 		}
 	}
 	c.Params["uchan"] = uchan
+	// half of the channel-backed entries keep the library's own callback object (whatever the
+	// queue does when it recognises one happens to them); the others get a recording wrapper
+	c.Params["rawchan"] = rng.Intn(1 << c17MaxEntries)
 	for i := 0; i < nt; i++ {
 		var s []Op
 		reg := [2]bool{}
@@ -110,6 +113,10 @@ type c17In struct {
 }
 type c17State [c17MaxEntries]uint8
 
+// c17Raw marks the entries of the current run that keep the library's own channel callback:
+// their calls cannot be recorded, so the model leaves them out of a notify's output.
+var c17Raw int
+
 var c17Model = porcupine.Model{
 	Init: func() interface{} { return c17State{} },
 	Step: func(state, input, output interface{}) (bool, interface{}) {
@@ -125,7 +132,7 @@ var c17Model = porcupine.Model{
 		case "notify":
 			want := ""
 			for e, m := range st {
-				if m&in.Mask != 0 {
+				if m&in.Mask != 0 && c17Raw&(1<<uint(e)) == 0 {
 					want += fmt.Sprintf("%d,", e)
 				}
 			}
@@ -185,6 +192,7 @@ func (c17) Exec(t *testing.T, c *Case, replay []int) *Outcome {
 			inv, ret int64
 			called   []int
 		}
+		c17Raw = c.Params["rawchan"] & c.Params["chan"]
 		entries := make([]waiter.Entry, ne)
 		chans := make([]chan struct{}, ne)
 		regs := make([][]*regRec, ne)
@@ -226,6 +234,9 @@ func (c17) Exec(t *testing.T, c *Case, replay []int) *Outcome {
 				inner := ce.Callback
 				entries[e] = ce
 				chans[e] = ch
+				if c17Raw&(1<<uint(e)) != 0 {
+					continue
+				}
 				// wrap: record, then run the shipped channel callback
 				entries[e].Callback = &c17cb{func(en *waiter.Entry) {
 					record()
@@ -357,6 +368,9 @@ func (c17) Exec(t *testing.T, c *Case, replay []int) *Outcome {
 				count[e]++
 			}
 			for e := 0; e < ne; e++ {
+				if c17Raw&(1<<uint(e)) != 0 {
+					continue // judged by its tokens below
+				}
 				must, may := false, false
 				for _, r := range regs[e] {
 					if r.mask&n.mask == 0 {
